@@ -130,11 +130,12 @@ var sbShapes = []sbShape{
 	{"int0", []sbArg{{"0", false}}, false},
 	// value shapes: data a script can build with the names of every sandboxed configuration, on which Go code
 	// of the library that walks its argument by recursion does not come back (the host must survive the call):
-	// a value that contains itself, through an array / a hash / handed over twice; a text nested without bound;
+	// a value that contains itself, through an array / a hash / both and a list / handed over twice; a text nested without bound;
 	// a form that leaves no value in the place of an argument, alone and inside an array literal
 	{"cyc-arr", []sbArg{{sbCycArr, false}}, true},
 	{"cyc-hash", []sbArg{{sbCycHash, false}}, true},
 	{"cyc-two", []sbArg{{sbCycArr, false}, {"zvc", false}}, true},
+	{"cyc-mix", []sbArg{{sbCycMix, false}}, true},
 	{"deep-sq", []sbArg{{sbDeepText("["), false}}, true},
 	{"deep-par", []sbArg{{sbDeepText("("), false}}, true},
 	{"noval", []sbArg{{"(begin)", false}}, true},
@@ -144,6 +145,8 @@ var sbShapes = []sbShape{
 const (
 	sbCycArr  = `(begin (def zvc [1]) (aset zvc 0 zvc) zvc)`
 	sbCycHash = `(begin (def zvh (hash a: 1)) (hset zvh a: zvh) zvh)`
+	// an array in a list in a hash in the array
+	sbCycMix = `(begin (def zvm [1 2]) (aset zvm 1 (hash a: (list 1 zvm))) zvm)`
 	// sbDeepDoublings: the nested text has 2^sbDeepDoublings opening brackets: far more levels than the stack
 	// limit of the hosts of this family (sbMaxStack) has room for at one Go frame per level
 	sbDeepDoublings = 18
@@ -789,10 +792,11 @@ func sbDeath(text string, signaled, timedOut bool, status string) (out, host, ev
 	return "exit", "exit", "exit", status
 }
 
-// sbFatalLine: the text from the first line of the Go runtime's report on.
+// sbFatalLine: what the Go runtime reported, in one line: the fatal error or panic and, of the goroutine
+// trace, the functions of the library that occur most often (the ones that recursed).
 func sbFatalLine(text string) string {
 	at := -1
-	for _, m := range []string{"runtime: goroutine stack exceeds", "fatal error:", "panic:"} {
+	for _, m := range []string{"fatal error:", "panic:"} {
 		if i := strings.Index(text, m); i >= 0 && (at < 0 || i < at) {
 			at = i
 		}
@@ -800,7 +804,35 @@ func sbFatalLine(text string) string {
 	if at < 0 {
 		return text
 	}
-	return text[at:]
+	head := text[at:]
+	if i := strings.IndexByte(head, '\n'); i >= 0 {
+		head = head[:i]
+	}
+	const pkg = "/zygo."
+	count := map[string]int{}
+	var order []string
+	for _, line := range strings.Split(text[at:], "\n") {
+		i := strings.Index(line, pkg)
+		if i < 0 || strings.HasPrefix(line, "\t") {
+			continue
+		}
+		fn := line[i+len(pkg):]
+		if j := strings.LastIndexByte(fn, '('); j > 0 {
+			fn = fn[:j]
+		}
+		if count[fn] == 0 {
+			order = append(order, fn)
+		}
+		count[fn]++
+	}
+	sort.SliceStable(order, func(a, b int) bool { return count[order[a]] > count[order[b]] })
+	if len(order) > 3 {
+		order = order[:3]
+	}
+	if len(order) > 0 {
+		head += " [in " + strings.Join(order, ", ") + "]"
+	}
+	return head
 }
 
 // sbPhase, when set, is told what the host is about to do with the result of an evaluation.
